@@ -336,6 +336,36 @@ def check_timecourse_time(ctx):
     ctx.decide(oka, "IOAGREE", "EmulsionTimeCourse:reader", (r, ap[0]) if ap else r, "each frame is appended with its stored time", "frames are not appended as (Emulsion._from_hdf_dataset(dataset), time=dataset.attrs['time'])")
 
 
+def check_pair_iteration(ctx, rule="IOAGREE"):
+    """The writers walk a time course through items(): it must hand out every (time, member) pair, in order.  Anything keyed
+    by the time (a dict) collapses frames that share a time stamp (two runs recorded into one course, a restart)."""
+    m = ctx.model
+    n = 0
+    for q, members in ((f"{EM}.EmulsionTimeCourse.items", "emulsions"), (f"{TR}.DropletTrack.items", "droplets")):
+        if not m.has_func(q):
+            continue
+        fi = m.func(q)
+        fv = view(m, fi)
+        rets = [r_.stmt for r_ in fv.return_nodes() if r_.stmt.value is not None]
+        yields = [y for y in ast.walk(fi.node) if isinstance(y, (ast.Yield, ast.YieldFrom))]
+        ok = False
+        shown = ""
+        if len(rets) == 1 and not yields:
+            ex = fv.expand(rets[0].value, rets[0])
+            shown = U(ex)
+            while isinstance(ex, ast.Call) and U(ex.func) in ("iter", "list", "tuple") and len(ex.args) == 1:
+                ex = ex.args[0]
+            ok = U(ex) == f"zip(self.times, self.{members})"
+        elif len(yields) == 1 and isinstance(yields[0], ast.YieldFrom):
+            shown = U(yields[0].value)
+            ok = shown == f"zip(self.times, self.{members})"
+        n += 1
+        ctx.decide(ok, rule, f"{fi.qualname}:pairs", (fi, rets[0]) if rets else fi, f"items() hands out every (time, member) pair: zip(self.times, self.{members})",
+                   f"items() yields `{shown[:70]}` instead of zip(self.times, self.{members}): pairs are dropped, merged or reordered (frames that share a time stamp collapse when keyed by time), "
+                   "so the file written through items() has other frames than the object")
+    return n
+
+
 def check_time_column(ctx):
     m = ctx.model
     w = m.func(f"{TR}.DropletTrack.data")
@@ -647,8 +677,13 @@ def check_track_one_layout(ctx, rule="IOAGREE"):
         where = (fi, r)
         if "__class__" in txts or "type(" in txts:
             ok_cls = True
-        if "dtype" in txts:
-            ok_lay = True
+        # the complete dtype is compared (field names *and* shapes: a member with fewer modes has the same names)
+        for t_, _p in si.effective_guards(r):
+            for cmp_ in ast.walk(fv.expand(t_, t_)):
+                if isinstance(cmp_, ast.Compare) and len(cmp_.ops) == 1 and isinstance(cmp_.ops[0], (ast.Eq, ast.NotEq)):
+                    sides = [U(cmp_.left), U(cmp_.comparators[0])]
+                    if all(x.endswith(".dtype") or x.endswith(".dtype.descr") for x in sides):
+                        ok_lay = True
     before = bool(alloc) and any(all(_precedes(fv, r, a_) for a_ in alloc) for r in raises) if raises else False
     ctx.decide(ok_cls and ok_lay and before, rule, site, where,
                "a track whose droplets differ in class or data layout raises TypeError before the table is formed (one class and one layout per dataset)",
